@@ -6,7 +6,7 @@
    read statuses, deliver watch events, run handlers) with no other event in
    between; workloads created on the node afterwards are outside the statement. *)
 From Coq Require Import List.
-From Verif Require Import Selfmon.Selfmon Selfmon.SelfmonProofs.
+From Verif Require Import Selfmon.Selfmon Selfmon.SelfmonProofs Selfmon.OkProofs.
 Import ListNotations.
 
 (* for every history: the status of n disappears while watcher k is active (in
@@ -112,3 +112,31 @@ Theorem C28_old_order_refuted :
   memn 0 (alive s) = false /\ map w_st (wls s) = [Some (true, true)].
 Proof. exact old_order_missed_lapse. Qed.
 Print Assumptions C28_old_order_refuted.
+
+(* ---- the boolean check evaluated by the harness ---- *)
+
+(* ok c = true implies, slot by slot, the two clauses of the property as
+   propositions over the observed statuses ... *)
+Theorem C28_ok_reflects : forall c, ok c = true ->
+  forall pre sl post, slots c = pre ++ sl :: post -> slot_clause (fold_left ok_step pre ok_init) sl.
+Proof. exact ok_reflects. Qed.
+Print Assumptions C28_ok_reflects.
+
+(* ... and accepts every run all of whose slots satisfy them *)
+Theorem C28_ok_complete : forall c,
+  (forall pre sl post, slots c = pre ++ sl :: post -> slot_clause (fold_left ok_step pre ok_init) sl) ->
+  ok c = true.
+Proof. exact ok_complete. Qed.
+Print Assumptions C28_ok_complete.
+
+(* the model agrees with its own observations for every history *)
+Theorem C28_agree_gen : forall acts, agree (gen_case acts) = true.
+Proof. exact agree_gen. Qed.
+Print Assumptions C28_agree_gen.
+
+(* ok accepts the model's own output: exhaustive for 3 x 30941 histories (set-up
+   prefix + up to 4 actions of a 13-letter alphabet); NOT proved for all histories *)
+Theorem C28_ok_gen_bounded :
+  all_ok setup 4 = true /\ all_ok (setup ++ [AStart]) 4 = true /\ all_ok (setup ++ [AStartHeld; AStart]) 4 = true.
+Proof. exact ok_gen_bounded. Qed.
+Print Assumptions C28_ok_gen_bounded.
